@@ -1,5 +1,5 @@
 (* C09 — model of the material/density path:
-     Kernel/Utils.py normalize_float                      [pass1 add_zero pass2 pass3 normalize_float]
+     Kernel/Utils.py normalize_float                      [pass1 pass1b add_zero pass2 pass3 normalize_float]
      FileHandlers/Parser/ParseMCNPCell.py parse_material  [parse_material]
      Volume/ByUniverse.py by_universe                     [by_universe]
      Volume/CellConversion.py pot_fill (material, density and idorigin copy;
@@ -22,7 +22,7 @@ Inductive res (A : Type) := Ok (a : A) | Err (e : err).
 Arguments Ok {A}. Arguments Err {A}.
 
 (* ------------------------------------------------------------------------ *)
-(* normalize_float: three regex passes as explicit string functions          *)
+(* normalize_float: four regex passes as explicit string functions           *)
 (* ------------------------------------------------------------------------ *)
 
 Definition is_sign (c : ascii) : bool := Ascii.eqb c "-" || Ascii.eqb c "+".
@@ -65,6 +65,35 @@ Definition pass1 (s : string) : string :=
   | _ => s
   end.
 
+(* the exponent part ([eEdD][-+]?|[-+])[0-9]+ up to the end of the string *)
+Definition is_marker (c : ascii) : bool :=
+  Ascii.eqb c "e" || Ascii.eqb c "E" || Ascii.eqb c "d" || Ascii.eqb c "D".
+
+Definition exp_ok (e : string) : bool :=
+  match e with
+  | EmptyString => false
+  | String c r => if is_marker c then (let r' := strip_sign r in nonempty r' && all_digits r')
+                  else is_sign c && nonempty r && all_digits r
+  end.
+
+(* re.sub(r'^([-+]?(?:[0-9]+\.[0-9]*?|\.[0-9]*?[0-9]))0+((?:[eEdD][-+]?|[-+])[0-9]+)$',
+          r'\1\2', s): zeros at the end of the fraction in front of an exponent
+   go; a mantissa without integer digits keeps one fractional digit *)
+Definition pass1b (s : string) : string :=
+  let (d1, t) := span_digits (strip_sign s) in
+  match t with
+  | String "." r =>
+      let (rd, e) := span_digits r in
+      if exp_ok e && negb (String.eqb (rstrip0 rd) rd) then
+        if nonempty d1 then sign_of s ++ d1 ++ "." ++ rstrip0 rd ++ e
+        else match rstrip0 rd with
+             | EmptyString => sign_of s ++ ".0" ++ e
+             | f => sign_of s ++ "." ++ f ++ e
+             end
+      else s
+  | _ => s
+  end.
+
 Fixpoint last_char (s : string) : option ascii :=
   match s with
   | EmptyString => None
@@ -96,8 +125,6 @@ Definition pass2 (s : string) : string :=
   else s.
 
 (* re.sub(r'[eEdD]', 'e', s) *)
-Definition is_marker (c : ascii) : bool :=
-  Ascii.eqb c "e" || Ascii.eqb c "E" || Ascii.eqb c "d" || Ascii.eqb c "D".
 Fixpoint pass3 (s : string) : string :=
   match s with
   | EmptyString => EmptyString
@@ -105,7 +132,7 @@ Fixpoint pass3 (s : string) : string :=
   end.
 
 Definition normalize_float (s : string) : res string :=
-  match add_zero (pass1 s) with
+  match add_zero (pass1b (pass1 s)) with
   | Err e => Err e
   | Ok n => Ok (pass3 (pass2 n))
   end.
@@ -157,20 +184,24 @@ Definition parse_material (toks : list string) : res (string * option string) :=
 
 (* parse_one_cell_worker, material side: the pair of the (base) cell card, then
    the MAT= / RHO= keywords of LIKE n BUT override it (the density keyword is
-   normalised, the material keyword is taken as written; a void override keeps
-   the base density) *)
+   normalised, the material keyword is taken as written); a cell whose material
+   number is then 0 has no density *)
 Definition cell_material (toks : list string) (kmat krho : option string)
   : res (string * option string) :=
   match parse_material toks with
   | Err e => Err e
   | Ok (m, d) =>
       let m' := match kmat with Some x => x | None => m end in
-      match krho with
-      | None => Ok (m', d)
-      | Some r => match normalize_float r with
-                  | Ok nr => Ok (m', Some nr)
-                  | Err e => Err e
-                  end
+      match (match krho with
+             | None => Ok d
+             | Some r => match normalize_float r with Ok nr => Ok (Some nr) | Err e => Err e end
+             end) with
+      | Err e => Err e
+      | Ok d' => match int_of_token m' with
+                 | None => Err EValue
+                 | Some 0%Z => Ok (m', None)
+                 | Some _ => Ok (m', d')
+                 end
       end
   end.
 
